@@ -89,8 +89,9 @@ class Interstitial(object):
             # invertible, so just use solve for speed (omega is technically *negative* definite)
             self.bias_solver = lambda omega, b: -solve(-omega, b, assume_a='pos')
         else:
-            # pseudoinverse required:
-            self.bias_solver = lambda omega, b: np.dot(pinv(omega), b)
+            # pseudoinverse required; the null space (uniform translations) comes out of the projection with roundoff of a
+            # few machine epsilon relative to the largest rate, which can land above the default cutoff and be inverted
+            self.bias_solver = lambda omega, b: np.dot(pinv(omega, rtol=1e-12), b)
         # these pieces are needed in order to compute the elastodiffusion tensor
         self.sitegroupops = self.generateSiteGroupOps()  # list of group ops to take first rep. into whole list
         self.jumpgroupops = self.generateJumpGroupOps()  # list of group ops to take first rep. into whole list
